@@ -172,6 +172,16 @@ def schedules(quick):
         ("single-import-lib-edit-last", "", [(0, "model", 1, "inplace"), (400, "lib", 2, "inplace")]),
         ("single-import-lib-edit-rename", "", [(0, "model", 1, "rename"), (400, "lib", 2, "rename"), (400, "lib", 3, "inplace")]),
         ("two-imports-lib-edit-last", "", [(0, "model", 1, "inplace"), (400, "lib", 2, "inplace")]),
+        # "first-": the saves start while the watcher's very first generation is still running (held at regen.validated#1), and nothing is saved afterwards
+        ("first-generation-save", "regen.validated#1=1200", [(150, "model", 1, "inplace")]),
+        ("first-generation-save-rename", "regen.validated#1=1200", [(150, "model", 1, "rename")]),
+        ("first-generation-two-saves", "regen.validated#1=1200", [(150, "model", 1, "inplace"), (100, "model", 2, "inplace")]),
+        ("first-generation-manifest-drop", "regen.validated#1=1200", [(150, "manifest-drop", 1, "inplace")]),
+        # the output is removed / overwritten by something else while the watcher is idle, then the package is saved again
+        ("output-removed-then-save", "", [(0, "model", 1, "inplace"), (600, "rm-output", 2, "inplace"), (300, "model", 3, "inplace")]),
+        ("output-removed-then-same-save", "", [(0, "model", 1, "inplace"), (600, "rm-output", 2, "inplace"), (300, "model", 1, "rename")]),
+        ("output-clobbered-then-save", "", [(0, "model", 1, "inplace"), (600, "clobber-output", 2, "inplace"), (300, "model", 3, "inplace")]),
+        ("output-python-removed-then-lib-save", "", [(0, "model", 1, "inplace"), (600, "rm-python-output", 2, "inplace"), (300, "lib", 3, "inplace")]),
     ]
     out += forced if quick else forced * 1 + [("forced-validated2-gap%d" % g, "regen.validated#2=1200", [(0, "model", 1, "inplace"), (g, "model", 2, "inplace")]) for g in (20, 50, 100, 300, 600, 1100, 1300)]
     return out
@@ -201,7 +211,17 @@ def run(ctx):
         os.makedirs(os.path.join(root, "home"), exist_ok=True)
         verdict = {"name": name, "saves": len(steps)}
         try:
-            if not w.wait_quiescent(1, limit_s=30):
+            if name.startswith("first-"):
+                # do not wait for the first generation: the script starts once the hook has logged that it is under way
+                t0 = time.monotonic()
+                while not any(e["ev"] == "regen.validated" for e in w.events()):
+                    if not w.alive():
+                        ctx.violation("watcher-died:startup", "%s: watcher exited during the initial generation" % name, {"case_dir": root})
+                        return verdict
+                    if time.monotonic() - t0 > 30:
+                        raise Inconclusive("%s: initial regeneration did not start within 30 s wall" % name)
+                    time.sleep(0.01)
+            elif not w.wait_quiescent(1, limit_s=30):
                 if not w.alive():
                     ctx.violation("watcher-died:startup", "%s: watcher exited during the initial generation" % name, {"case_dir": root})
                     return verdict
@@ -239,6 +259,15 @@ def run(ctx):
                     if os.path.exists(os.path.join(root, "main/second.yml")):
                         os.replace(os.path.join(root, "main/second.yml"), os.path.join(root, "moved_out_%d.yml" % v))
                     second = None
+                elif kind == "rm-output":
+                    shutil.rmtree(os.path.join(root, "out"), ignore_errors=True)
+                elif kind == "rm-python-output":
+                    shutil.rmtree(os.path.join(root, "out", "python"), ignore_errors=True)
+                elif kind == "clobber-output":
+                    for dp, _, fs in os.walk(os.path.join(root, "out")):
+                        for fn in sorted(fs)[::2]:
+                            with open(os.path.join(dp, fn), "w") as f:
+                                f.write("overwritten by another tool\n")
                 elif kind == "manifest-drop":
                     cur_outputs = ("cpp", "json")
                     save(os.path.join(root, "main/_package.yml"), manifest(cur_outputs), how)
